@@ -115,6 +115,20 @@ def serviceQuery (cache : List Rec) (now : Int) (qu : Bool) : List String → Hi
     | (none, h1) => serviceQuery cache now qu rest h1
     | (some o, h1) => (o :: (serviceQuery cache now qu rest h1).1, (serviceQuery cache now qu rest h1).2)
 
+/-- `questions_with_known_answers[question] = known_answers` (`browser.py:275`): the questions are collected in a dict keyed by
+`DNSQuestion` (C20: lower-cased name, type, class).  A second question of the same key — the type set holds two spellings of one
+type — replaces the value and keeps the first key object. -/
+def dictPut (d : List QOut) (o : QOut) : List QOut :=
+  if d.any (fun x => x.q.beq lower o.q) then
+    d.map (fun x => if x.q.beq lower o.q then { x with known := o.known, wire := o.wire } else x)
+  else d ++ [o]
+
+/-- `generate_service_query` up to the grouping: the per-type loop (`serviceQuery`), its questions collected in the dict.
+Under QM a second spelling is already suppressed by the first's history entry; under QU both pass the loop and the dict merges
+them into one question.  (`serviceQuery` itself — one entry per loop turn — is what C15's totality argument runs over: a superset.) -/
+def serviceQuestions (cache : List Rec) (now : Int) (qu : Bool) (types : List String) (h : History) : List QOut × History :=
+  ((serviceQuery lower cache now qu types h).1.foldl (dictPut lower) [], (serviceQuery lower cache now qu types h).2)
+
 /-! ### bucket grouping (`_group_ptr_queries_with_known_answers`), sizes given -/
 
 /-- a bucket: accumulated size estimate and the questions put into it (in insertion order) -/
